@@ -199,3 +199,17 @@ impl<'a, 'b, 'c, const N: usize> VxContainsStr<&'a &'b Str> for [&'c Str; N] {
     #[verifier::external_body]
     fn vx_contains_str(&self, x: &'a &'b Str) -> (r: bool) { unimplemented!() }
 }
+
+// Vec<String>::reverse() and [String]::join(sep) (method_to_fn reverse -> vx_reverse_strs, join -> vx_join_strs)
+pub open spec fn flat_strs(parts: Seq<Str>, n: int) -> Seq<char> decreases n
+{ if n <= 0 { Seq::empty() } else { flat_strs(parts, n - 1) + parts[n - 1]@ } }
+pub trait VxStrVec {
+    fn vx_reverse_strs(&mut self);
+    fn vx_join_strs(&self, sep: &Str) -> Str;
+}
+impl VxStrVec for Vec<Str> {
+    #[verifier::external_body]
+    fn vx_reverse_strs(&mut self) ensures final(self)@ == old(self)@.reverse() { self.reverse() }
+    #[verifier::external_body]
+    fn vx_join_strs(&self, sep: &Str) -> (r: Str) ensures sep@.len() == 0 ==> r@ == flat_strs(self@, self@.len() as int) { unimplemented!() }
+}
